@@ -55,7 +55,7 @@ def extra_pass(tier, kf):
     return tcall.run(PROP, "probe_bounds", FORMS, tier, kf, FAIL, _classify,
                      "FmtAttribute::bounded_types, Placeholder::parse_fmt_string, FmtAttribute, FmtArgument",
                      ["impl/src/fmt/mod.rs::FmtAttribute::bounded_types", "impl/src/fmt/mod.rs::Placeholder::parse_fmt_string"],
-                     n_full={"quick": 3, "thorough": 5}, n_deep={"quick": 5, "thorough": 8}, alphabet=ALPHABET, deep_alphabet=DEEP, render=render)
+                     n_full={"quick": 3, "thorough": 4}, n_deep={"quick": 5, "thorough": 7}, alphabet=ALPHABET, deep_alphabet=DEEP, render=render)
 
 
 def replay_json(path):
